@@ -57,7 +57,8 @@ func c04Gen(thorough bool) func(emit func(*h1.Scenario)) {
 				exs = []int64{0, 75}
 			}
 			if n == 3 && thorough {
-				exs = []int64{0, 45, 75, 90, 130}
+				profs = []c04Profile{c04Profiles[0], c04Profiles[1], c04Profiles[2], c04Profiles[4], c04Profiles[6], c04Profiles[8]}
+				exs = []int64{0, 75, 130}
 			}
 			dims := []int{}
 			for i := 0; i < n; i++ {
